@@ -84,6 +84,11 @@ def obligations(tier):
                       restrict_fp=RFP,
                       sample="MIR_output_op on a %s memory operand: base and index each absent or one of 5 registers, disp and scale symbolic, "
                              "alias/nonalias in {none, al, nal}; text read back by the reference reader of MIR.md's operand syntax" % tn))
+    ploops = dict(WLOOPS)
+    ploops.update({"harness#0": 8, "harness#1": 3, "harness#2": 17, "h_fprintf#0": 12, "h_fprintf#1": 8, "h_fprintf#2": 8})
+    obs.append(Ob("hdr.proto", "C10/proto.c", defs=WDEFS, loops=ploops, unwindset=WREC, unwind=4, checks="memsafe", object_bits=12, timeout=900,
+                  sample="MIR_output_item on a prototype with 0..2 results, 0..3 arguments (i64, blk1, rblk) and the vararg flag symbolic; the header line "
+                         "read back by a reference reader of MIR.md's proto syntax"))
     sloops = {"h_setup#7": 7, "scan_string#0": 17, "scan_string#1": 3, "MIR_output_str#0": 4, "h_fprintf#0": 6, "h_fprintf#1": 3,
               "h_fprintf#2": 2, "harness#0": 4, "harness#1": 4, "memcpy#0": 3, "memcpy#1": 5, "memcmp#0": 5, "memset#0": 5,
               "memset#1": 30, "HTAB_string_t_do#0": 13, "VARR_charpush_arr#0": 2, "strlen#0": 2}
